@@ -59,13 +59,13 @@ def big : Float := 1.0e5
 def cmdSweep2 : StateT Toks (Except String) String := do
   let nz ← popNat; let nx ← popNat; let i ← popNat; let j ← popNat
   let svz ← popInt; let svx ← popInt; let stz ← popInt; let stx ← popInt
-  let zsi ← popInt; let xsi ← popInt; let grad ← popNat
+  let zsi ← popInt; let xsi ← popInt; let grad ← popNat; let sgm ← popNat
   let dz ← popF; let dx ← popF; let zsa ← popF; let xsa ← popF; let vz ← popF
   let tt ← popGrid2 nz nx
   let slow ← popGrid2 (nz - 1) (nx - 1)
   let dzi := (1.0 : Float) / dz
   let dxi := (1.0 : Float) / dx
-  let sgn : Grid2 (Int × Int) := if grad != 0 then Grid2.full nz nx (7, 7) else #[]
+  let sgn : Grid2 (Int × Int) := if grad != 0 then Grid2.full nz nx (if sgm == 1 then (stz, stx) else (7, 7)) else #[]
   let r := Gen.F2.sweep big tt sgn slow (dz, dx, dzi, dxi, dzi / dz, dxi / dx) (Float.ofInt zsi) (Float.ofInt xsi)
     zsa xsa vz i j svz svx stz stx nz nx (grad != 0)
   let sg := r.2.get (7, 7) i j
@@ -74,19 +74,42 @@ def cmdSweep2 : StateT Toks (Except String) String := do
 def cmdSweep3 : StateT Toks (Except String) String := do
   let nz ← popNat; let nx ← popNat; let ny ← popNat; let i ← popNat; let j ← popNat; let k ← popNat
   let svz ← popInt; let svx ← popInt; let svy ← popInt; let stz ← popInt; let stx ← popInt; let sty ← popInt
-  let grad ← popNat
+  let grad ← popNat; let sgm ← popNat
   let dz ← popF; let dx ← popF; let dy ← popF
   let tt ← popGrid3 nz nx ny
   let slow ← popGrid3 (nz - 1) (nx - 1) (ny - 1)
   let dz2i := (1.0 : Float) / dz / dz
   let dx2i := (1.0 : Float) / dx / dx
   let dy2i := (1.0 : Float) / dy / dy
-  let sgn : Grid3 (Int × Int × Int) := if grad != 0 then Grid3.full nz nx ny (7, 7, 7) else #[]
+  let sgn : Grid3 (Int × Int × Int) := if grad != 0 then Grid3.full nz nx ny (if sgm == 1 then (stz, stx, sty) else (7, 7, 7)) else #[]
   let r := Gen.F3.sweep big tt sgn slow
     (dz, dx, dy, dz2i, dx2i, dy2i, dz2i * dx2i, dz2i * dy2i, dx2i * dy2i, dz2i + dx2i + dy2i)
     i j k svz svx svy stz stx sty nz nx ny (grad != 0)
   let sg := r.2.get (7, 7, 7) i j k
   pure s!"ok {outGrid3 r.1} {sg.1} {sg.2.1} {sg.2.2}"
+
+def outGrid2P (g : Grid2 (Float × Float)) : String :=
+  outFs (g.toList.flatMap fun r => r.toList.flatMap fun p => [p.1, p.2])
+
+def outGrid3T (g : Grid3 (Float × Float × Float)) : String :=
+  outFs (g.toList.flatMap fun p => p.toList.flatMap fun r => r.toList.flatMap fun x => [x.1, x.2.1, x.2.2])
+
+/-- the whole 2-D solver as translated from the source -/
+def cmdFteik2d : StateT Toks (Except String) String := do
+  let nzc ← popNat; let nxc ← popNat; let nsweep ← popNat; let grad ← popNat
+  let dz ← popF; let dx ← popF; let zs ← popF; let xs ← popF
+  let slow ← popGrid2 nzc nxc
+  match Gen.F2.fteik2d big slow dz dx zs xs nsweep (grad != 0) with
+  | .error e => pure s!"err {e.code}"
+  | .ok o => pure s!"ok {fbits o.2.2} {outGrid2 o.1} {outGrid2P o.2.1}"
+
+def cmdFteik3d : StateT Toks (Except String) String := do
+  let nzc ← popNat; let nxc ← popNat; let nyc ← popNat; let nsweep ← popNat; let grad ← popNat
+  let dz ← popF; let dx ← popF; let dy ← popF; let zs ← popF; let xs ← popF; let ys ← popF
+  let slow ← popGrid3 nzc nxc nyc
+  match Gen.F3.fteik3d big slow dz dx dy zs xs ys nsweep (grad != 0) with
+  | .error e => pure s!"err {e.code}"
+  | .ok o => pure s!"ok {fbits o.2.2} {outGrid3 o.1} {outGrid3T o.2.1}"
 
 def cmdInterp2d : StateT Toks (Except String) String := do
   let nx ← popNat; let ny ← popNat
@@ -125,6 +148,8 @@ def handle (line : String) : String :=
     match c with
     | "sweep2" => run cmdSweep2
     | "sweep3" => run cmdSweep3
+    | "fteik2d" => run cmdFteik2d
+    | "fteik3d" => run cmdFteik3d
     | "interp2d" => run cmdInterp2d
     | "interp3d" => run cmdInterp3d
     | "vinterp2d" => run cmdVinterp2d
